@@ -94,3 +94,14 @@ prop("C03",
          dict(test="^TestC03_Gen$", quick=dict(checks=8000), thorough=dict(checks=60000, shards=16, timeout=3000)),
          dict(test="^XXX$", thorough_only=True, thorough=dict(fuzz="^FuzzC03$", fuzztime="240s", timeout=900)),
      ])
+
+prop("C08",
+     level_text="round-trip testing: for generated and corpus documents the parser accepts, parse(print(A)) must be structurally identical to A (kinds, names, decoded values, order; locations aside), print must be stable after one round, and Print must leave its argument untouched; thorough adds a native fuzz campaign over arbitrary accepted byte strings",
+     note="quantifies over documents that are both accepted by the library and derivable from the grammar (inputs accepted only because of KF-C03-typeref are C03's business); layouts are ASCII so KF-C03-offsets cannot interfere; invalid UTF-8 is not generated",
+     technique="property-based testing (rapid) + go test -fuzz with a round-trip oracle",
+     rule="sentences derived from the grammar (executable, type-system, mixed): every definition kind, every value kind nested, strings over a hostile alphabet (quotes, backslash, C0 controls, DEL, U+2028, BOM, non-BMP), descriptions as quoted and block strings with triple quotes / trailing quotes / indentation / CR / blank lines, directives with arguments on every definition kind, empty field lists. Non-trivial = parseable and contains a character outside plain printable ASCII, an escape, a block string, or a described / directive-carrying type-system definition; distinct by text.",
+     assumptions=SYN_ASSUME,
+     runs=[
+         dict(test="^TestC08_(Gen|Corpus)$", quick=dict(checks=6000), thorough=dict(checks=60000, shards=16, timeout=3000)),
+         dict(test="^XXX$", thorough_only=True, thorough=dict(fuzz="^FuzzC08$", fuzztime="240s", timeout=900)),
+     ])
